@@ -445,7 +445,7 @@ def kindOfList (l : List Val) : K := l.foldl (fun k v => k.join (kindOfVal v)) .
 /-- domain and codomain of a named unary function -/
 def fnSig (f : String) : K × K :=
   match (splitArg f).1 with
-  | "add" | "mul" | "sq" | "neg" => (.int, .int)
+  | "add" | "mul" | "sq" | "neg" | "stopge" | "failge" | "mfail" => (.int, .int)
   | "pair" => (.any, .list)
   | "lenf" => (.list, .int)
   | "const" => (.any, .int)
@@ -453,7 +453,7 @@ def fnSig (f : String) : K × K :=
 
 def predDom (p : String) : K :=
   match (splitArg p).1 with
-  | "lt" | "gt" | "ne" | "even" => .int
+  | "lt" | "gt" | "ne" | "even" | "pfail" => .int
   | "lenlt" | "evenlen" => .list
   | "tt" | "ff" => .any
   | _ => .bad
@@ -480,8 +480,8 @@ def kindOf : SExpr → K
   | .zip f es =>
     let ks := kindsOf es
     if ks.any (· == .bad) then .bad
-    else match f with
-      | "plus" | "lin" => if ks.all (fun k => K.fits .int k) then .int else .bad
+    else match (splitArg f).1 with
+      | "plus" | "lin" | "zfail" => if ks.all (fun k => K.fits .int k) then .int else .bad
       | "firstf" => ks.headD .bad
       | _ => .list
   | .dropS _ e => kindOf e
@@ -499,6 +499,358 @@ def obsKindOk (obs : List String) (k : K) : Bool :=
   | ["takeWhile", p] => (predDom p).fits k
   | _ => true
 
+/-! ### streams driven by partial functions (element errors): the second pathway
+
+Names: `stopge:c` = `\\x -> if (x < c) x + 1 else break`, `failge:c` = `… else throw "boom"` (step
+functions of `iterate`), `mfail:c` = `\\x -> if (x == c) throw "boom" else x + 1` (lazy_map),
+`pfail:c` = `\\x -> if (x == c) throw "boom" else x % 2 == 0` (lazy_filter / take / drop),
+`zfail:c` = `\\a, b -> if (a == c) throw "boom" else a + b` (lazy_zip).  An expression that uses one of
+them is evaluated on item streams (`Impl/Stream.lean`, "element errors"). -/
+
+def applyFnE (f : String) (x : Val) : FnRes Val :=
+  match splitArg f with
+  | ("stopge", c) => if vInt x < c then .ok (.int (vInt x + 1)) else .stop
+  | ("failge", c) => if vInt x < c then .ok (.int (vInt x + 1)) else .fail
+  | ("mfail", c) => if vInt x = c then .fail else .ok (.int (vInt x + 1))
+  | _ => .ok (applyFn f x)
+
+def applyPredE (p : String) (x : Val) : FnRes Bool :=
+  match splitArg p with
+  | ("pfail", c) => if vInt x = c then .fail else .ok (vInt x % 2 = 0)
+  | _ => .ok (applyPred p x)
+
+def applyFn2E (f : String) (args : List Val) : FnRes Val :=
+  match splitArg f with
+  | ("zfail", c) =>
+    if vInt (args.headD (.int 0)) = c then .fail
+    else .ok (.int (args.foldl (fun acc x => acc + vInt x) 0))
+  | _ => .ok (applyFn2 f args)
+
+def isPartialName (f : String) : Bool :=
+  ["stopge", "failge", "mfail", "pfail", "zfail"].contains (splitArg f).1
+
+mutual
+def isPartial : SExpr → Bool
+  | .iter f _ => isPartialName f
+  | .map f e => isPartialName f || isPartial e
+  | .filter p e => isPartialName p || isPartial e
+  | .zip f es => isPartialName f || anyPartial es
+  | .dropS _ e => isPartial e
+  | .revS e => isPartial e
+  | .dropWhile p e => isPartialName p || isPartial e
+  | _ => false
+def anyPartial : List SExpr → Bool
+  | [] => false
+  | e :: es => isPartial e || anyPartial es
+end
+
+def liftStrm (s : Strm Val) : Strm (Item Val) := ⟨s.σ, mapOut Item.ok s.ops, s.st⟩
+
+def zipAllE : List (Strm (Item Val)) → Option (Strm (Item (List Val)))
+  | [] => none
+  | [a] => some ⟨Option a.σ, zipOneE a.ops, some a.st⟩
+  | a :: rest =>
+    match zipAllE rest with
+    | some b => some ⟨Option (a.σ × b.σ), zipOpsE a.ops b.ops, some (a.st, b.st)⟩
+    | none => none
+
+def asStream {β : Type} : Sum (List β) (Strm β) → R (Strm β)
+  | .inr t => .ok t
+  | .inl _ => .throw
+
+mutual
+def evalExprE : SExpr → R (Strm (Item Val))
+  | .iter f v =>
+    if isPartialName f then .ok ⟨IterateE.St Val, IterateE.ops (applyFnE f), .run v⟩
+    else (evalExpr (.iter f v)).map liftStrm
+  | .map f e => (evalExprE e).map fun s => ⟨Option s.σ, mapOpsE s.ops (applyFnE f), some s.st⟩
+  | .filter p e => (evalExprE e).map fun s => ⟨Option s.σ, filterOpsE s.ops (applyPredE p), some s.st⟩
+  | .zip f es =>
+    (evalExprsE es).bind fun ss =>
+      match zipAllE ss with
+      | some z => .ok ⟨Option z.σ, mapOpsE z.ops (applyFn2E f), some z.st⟩
+      | none => .throw
+  | .dropS n e => (evalExprE e).bind fun s => (s.slice (some n) none).bind asStream
+  | .revS e => (evalExprE e).bind fun s => s.reversed.bind asStream
+  | .dropWhile p e => (evalExprE e).bind fun s => StrmE.dropWhile s (applyPredE p)
+  | .range r => (evalExpr (.range r)).map liftStrm
+  | .perms b => (evalExpr (.perms b)).map liftStrm
+  | .combs b k => (evalExpr (.combs b k)).map liftStrm
+  | .subseqs b => (evalExpr (.subseqs b)).map liftStrm
+  | .cpow b k => (evalExpr (.cpow b k)).map liftStrm
+  | .wrap b => (evalExpr (.wrap b)).map liftStrm
+  | .rep v => (evalExpr (.rep v)).map liftStrm
+  | .cyc b => (evalExpr (.cyc b)).map liftStrm
+def evalExprsE : List SExpr → R (List (Strm (Item Val)))
+  | [] => .ok []
+  | e :: es => (evalExprE e).bind fun s => (evalExprsE es).map fun ss => s :: ss
+end
+
+def showStrmE (s : Strm (Item Val)) : R Res :=
+  s.len.bind fun n =>
+    match n with
+    | none => .ok .infStream
+    | some _ =>
+      match (s.ops.force s.st).bind StrmE.unItems with
+      | .ok l => .ok (.seq true l)
+      | .throw => .ok .streamErr
+      | .panic => .panic
+      | .diverge => .diverge
+
+def showSliceE : Sum (List Val) (Strm (Item Val)) → R Res
+  | .inl l => .ok (.seq false l)
+  | .inr s => showStrmE s
+
+def obsImplE (obs : List String) (s : Strm (Item Val)) : R Res :=
+  match obs with
+  | ["len"] => s.len.map fun n => match n with
+    | some n => .val (.int n)
+    | none => .infLen
+  | ["list"] => (StrmE.toList s).map (.seq false)
+  | ["pairs"] => (StrmE.toList s).map fun l => .seq false (l.zipIdx.map fun (x, i) => Val.ofList [.int i, x])
+  | ["rev"] => (StrmE.reversed s).bind showSliceE
+  | ["last"] => (StrmE.index s (-1)).map .val
+  | ["first"] => (StrmE.index s 0).map .val
+  | ["truthy"] => s.truthy.map fun b => .val (b2v b)
+  | ["only"] => (StrmE.only s).map .val
+  | ["idx", i] =>
+    match parseIdx i with
+    | .i n => (StrmE.index s n).map .val
+    | _ => .throw
+  | ["slice", lo, hi] =>
+    (sliceArg (parseIdx lo)).bind fun lo =>
+    (sliceArg (parseIdx hi)).bind fun hi =>
+    (StrmE.slice s lo hi).bind showSliceE
+  | ["in", v] =>
+    match parseVal v with
+    | some v => (StrmE.mem s v).map fun b => .val (b2v b)
+    | none => .throw
+  | ["unpack", k] => (StrmE.unpack s k.toNat!).map (.seq false)
+  | ["takeWhile", p] => (StrmE.takeWhile s (applyPredE p)).map (.seq false)
+  | _ => .diverge
+
+/-! Spec for the second pathway: the values that are defined, then how the stream goes on -/
+inductive Tail where
+  | done
+  | err
+  | inf (g : Nat → Val)
+
+structure SE where
+  pre : List Val
+  tail : Tail
+
+def scanFuel : Nat := 3000
+
+/-- values of `g` from 0 while `step` accepts them; `none` = every one of the first `scanFuel` -/
+def scanInf (g : Nat → Val) (step : Val → Option (Option Val)) : Nat → Nat → List Val → Option (List Val × Bool)
+  | 0, _, _ => none
+  | fuel + 1, i, acc =>
+    match step (g i) with
+    | none => some (acc.reverse, true)            -- the function raised here
+    | some (some w) => scanInf g step fuel (i + 1) (w :: acc)
+    | some none => scanInf g step fuel (i + 1) acc  -- filtered out
+
+def walkPre (step : Val → Option (Option Val)) : List Val → List Val → List Val × Bool
+  | [], acc => (acc.reverse, false)
+  | v :: vs, acc =>
+    match step v with
+    | none => (acc.reverse, true)
+    | some (some w) => walkPre step vs (w :: acc)
+    | some none => walkPre step vs acc
+
+/-- a per-element transformation that may raise (`none`), keep a value, or drop the element -/
+def SE.through (s : SE) (step : Val → Option (Option Val)) (total : Val → Val) (isMap : Bool) : R SE :=
+  match walkPre step s.pre [] with
+  | (p, true) => .ok ⟨p, .err⟩
+  | (p, false) =>
+    match s.tail with
+    | .done => .ok ⟨p, .done⟩
+    | .err => .ok ⟨p, .err⟩
+    | .inf g =>
+      match scanInf g step scanFuel 0 [] with
+      | some (q, _) => .ok ⟨p ++ q, .err⟩
+      | none => if isMap then .ok ⟨p, .inf fun i => total (g i)⟩ else .diverge
+
+def specIter (f : String) : Nat → Val → List Val → R SE
+  | 0, _, _ => .diverge
+  | fuel + 1, cur, acc =>
+    match applyFnE f cur with
+    | .ok y => specIter f fuel y (cur :: acc)
+    | .stop => .ok ⟨(cur :: acc).reverse, .done⟩
+    | .fail => .ok ⟨(cur :: acc).reverse, .err⟩
+
+def SE.at (s : SE) (i : Nat) : Option (Option Val) :=   -- some (some v) | some none = end | none = error
+  if i < s.pre.length then some s.pre[i]?
+  else match s.tail with
+    | .done => some none
+    | .err => none
+    | .inf g => some (some (g (i - s.pre.length)))
+
+/-- positions of a zip, left to right: the first end / error decides -/
+def zipAt (ss : List SE) (i : Nat) : Option (Option (List Val)) :=
+  match ss with
+  | [] => some (some [])
+  | s :: rest =>
+    match s.at i with
+    | none => none
+    | some none => some none
+    | some (some v) =>
+      match zipAt rest i with
+      | none => none
+      | some none => some none
+      | some (some vs) => some (some (v :: vs))
+
+def specZip (f : String) (ss : List SE) : Nat → Nat → List Val → R SE
+  | 0, _, _ => .diverge
+  | fuel + 1, i, acc =>
+    match zipAt ss i with
+    | none => .ok ⟨acc.reverse, .err⟩
+    | some none => .ok ⟨acc.reverse, .done⟩
+    | some (some args) =>
+      match applyFn2E f args with
+      | .ok w => specZip f ss fuel (i + 1) (w :: acc)
+      | _ => .ok ⟨acc.reverse, .err⟩
+
+def fnStep (f : String) (v : Val) : Option (Option Val) :=
+  match applyFnE f v with
+  | .ok w => some (some w)
+  | _ => none
+def predStep (p : String) (v : Val) : Option (Option Val) :=
+  match applyPredE p v with
+  | .ok true => some (some v)
+  | .ok false => some none
+  | _ => none
+
+def dropWhilePre (p : String) : List Val → Option (List Val)   -- none = raised
+  | [] => some []
+  | v :: vs =>
+    match applyPredE p v with
+    | .ok true => dropWhilePre p vs
+    | .ok false => some (v :: vs)
+    | _ => none
+
+def liftSpec (r : R (SS Val)) : R SE :=
+  r.map fun s => match s with
+    | .fin l => ⟨l, .done⟩
+    | .inf g => ⟨[], .inf g⟩
+
+mutual
+def specExprE : SExpr → R SE
+  | .iter f v =>
+    if isPartialName f then specIter f scanFuel v []
+    else .ok ⟨[], .inf fun i => iterN (applyFn f) i v⟩
+  | .map f e => (specExprE e).bind fun s => s.through (fnStep f) (applyFn f) true
+  | .filter p e => (specExprE e).bind fun s => s.through (predStep p) id false
+  | .zip f es => (specExprsE es).bind fun ss => specZip f ss scanFuel 0 []
+  | .dropS n e =>
+    (specExprE e).bind fun s =>
+      if n ≤ s.pre.length then .ok ⟨s.pre.drop n, s.tail⟩
+      else match s.tail with
+        | .done => .ok ⟨[], .done⟩
+        | .err => .diverge
+        | .inf g => .ok ⟨[], .inf fun i => g (i + (n - s.pre.length))⟩
+  | .revS _ => .diverge
+  | .dropWhile p e =>
+    (specExprE e).bind fun s =>
+      match dropWhilePre p s.pre with
+      | none => .throw
+      | some (v :: vs) => .ok ⟨v :: vs, s.tail⟩
+      | some [] =>
+        match s.tail with
+        | .done => .ok ⟨[], .done⟩
+        | .err => .throw
+        | .inf _ => .diverge
+  | .range r => liftSpec (specExpr (.range r))
+  | .perms b => liftSpec (specExpr (.perms b))
+  | .combs b k => liftSpec (specExpr (.combs b k))
+  | .subseqs b => liftSpec (specExpr (.subseqs b))
+  | .cpow b k => liftSpec (specExpr (.cpow b k))
+  | .wrap b => liftSpec (specExpr (.wrap b))
+  | .rep v => liftSpec (specExpr (.rep v))
+  | .cyc b => liftSpec (specExpr (.cyc b))
+def specExprsE : List SExpr → R (List SE)
+  | [] => .ok []
+  | e :: es => (specExprE e).bind fun s => (specExprsE es).map fun ss => s :: ss
+end
+
+/-- the whole list, when the stream ends without an error -/
+def SE.whole (s : SE) : R (List Val) :=
+  match s.tail with
+  | .done => .ok s.pre
+  | .err => .throw
+  | .inf _ => .diverge
+
+def takeWhilePre (p : String) : List Val → List Val → Option (List Val × Bool)  -- (taken, stopped inside)
+  | [], acc => some (acc.reverse, false)
+  | v :: vs, acc =>
+    match applyPredE p v with
+    | .ok true => takeWhilePre p vs (v :: acc)
+    | .ok false => some (acc.reverse, true)
+    | _ => none
+
+def obsSpecE (obs : List String) (streamKind : Bool) (s : SE) : R Res :=
+  let n := s.pre.length
+  match obs with
+  | ["list"] => s.whole.map (.seq false)
+  | ["pairs"] => s.whole.map fun l => .seq false (l.zipIdx.map fun (x, i) => Val.ofList [.int i, x])
+  | ["first"] =>
+    match s.at 0 with
+    | some (some v) => .ok (.val v)
+    | _ => .throw
+  | ["idx", i] =>
+    match parseIdx i with
+    | .i k =>
+      if 0 ≤ k then
+        match s.at k.toNat with
+        | some (some v) => .ok (.val v)
+        | _ => .throw
+      else s.whole.bind fun l => match pyIndex l k with
+        | some v => .ok (.val v)
+        | none => .throw
+    | _ => .throw
+  | ["last"] => s.whole.bind fun l => match l.getLast? with
+    | some v => .ok (.val v)
+    | none => .throw
+  | ["rev"] => s.whole.map fun l => .seq false l.reverse
+  | ["slice", lo, hi] =>
+    match parseIdx lo, parseIdx hi with
+    | .bad, _ => .throw
+    | _, .bad => .throw
+    | lo, hi =>
+      let lo' := (optIdx lo).getD 0
+      match optIdx hi with
+      | some hi' =>
+        if 0 ≤ lo' ∧ 0 ≤ hi' then
+          if hi'.toNat ≤ n then .ok (.seq streamKind ((s.pre.drop lo'.toNat).take (hi'.toNat - lo'.toNat)))
+          else match s.tail with
+            | .done => .ok (.seq streamKind (s.pre.drop lo'.toNat))
+            | .err => if lo'.toNat ≤ n then .throw else .diverge
+            | .inf g =>
+              .ok (.seq streamKind ((s.pre ++ (List.range (hi'.toNat - n)).map g).drop lo'.toNat))
+        else s.whole.map fun l => .seq streamKind (pySliceSpec l (some lo') (some hi'))
+      | none =>
+        if 0 ≤ lo' then .diverge   -- a stream again: how it is shown depends on its `len`
+        else s.whole.map fun l => .seq streamKind (pySliceSpec l (some lo') none)
+  | ["in", v] =>
+    match parseVal v with
+    | some v =>
+      if s.pre.contains v then .ok (.val (.int 1))
+      else match s.tail with
+        | .done => .ok (.val (.int 0))
+        | .err => .throw
+        | .inf g => if (List.range scanFuel).any (fun i => g i == v) then .ok (.val (.int 1)) else .diverge
+    | none => .throw
+  | ["takeWhile", p] =>
+    match takeWhilePre p s.pre [] with
+    | none => .throw
+    | some (l, true) => .ok (.seq false l)
+    | some (l, false) =>
+      match s.tail with
+      | .done => .ok (.seq false l)
+      | .err => .throw
+      | .inf _ => .diverge
+  | _ => .diverge   -- len / truthiness / only / unpack: not specified for function-driven streams
+
 def splitAt (xs : List String) : List String × List String :=
   (xs.takeWhile (· ≠ "@"), (xs.dropWhile (· ≠ "@")).drop 1)
 
@@ -511,6 +863,13 @@ def handle (args : List String) : String :=
   match parseExpr ex with
   | some (e, []) =>
     if kindOf e == .bad || !obsKindOk obs (kindOf e) then "unsupported\tunsupported\tunsupported" else
+    if isPartial e || (match obs with | ["takeWhile", p] => isPartialName p | _ => false) then
+      let impl := (evalExprE e).bind (obsImplE obs)
+      let spec := (specExprE e).bind (obsSpecE obs (isStreamRes impl))
+      match spec with
+      | .diverge => impl.render Res.render ++ "\t" ++ impl.render Res.render ++ "\tpartial unspecified"
+      | _ => impl.render Res.render ++ "\t" ++ spec.render Res.render ++ "\tpartial"
+    else
     let impl := (evalExpr e).bind (obsImpl obs)
     let specS := specExpr e
     let spec := specS.bind (obsSpec obs (isStreamRes impl))
